@@ -133,7 +133,7 @@ class Runner:
         if not fn_by_c[unit.target]["defined"]:
             raise Undecided("target %s has no body" % unit.target)
         for r in unit.replace:
-            if r not in fn_by_c:
+            if r not in fn_by_c and r not in ("memcpy", "memset", "memmove", "memcmp", "malloc", "free", "realloc"):
                 raise Undecided("replaced callee %s not called from the lowered closure of %s (renamed or call removed)" % (r, unit.name))
         # contract macro names must refer to existing functions
         ctext = open(os.path.join(VERIF, unit.contracts)).read()
